@@ -47,13 +47,13 @@ type AppSpec struct {
 // syncer is blocked inside an app / state-provider call) or right after an app
 // call returned (racing with the syncer on purpose).
 type Action struct {
-	At      string `json:"at"`   // apphash | offer | apply | after-apply
-	Call    int    `json:"call"` // call number of that kind
-	Kind    string `json:"kind"` // push | stop | readv | flush
-	Peer    int    `json:"peer"`
+	At      string `json:"at"`    // apphash | offer | apply | after-apply
+	Call    int    `json:"call"`  // call number of that kind
+	Kind    string `json:"kind"`  // push | stop | readv | flush | reconnect (leave if still connected, come back under the same node key, advertise Snap)
+	Peer    int    `json:"peer"`  // liar index; -1 = sender of the chunk of this call, -2 = sender most recently rejected by the app, -3 = some other honest connected peer
 	Rel     int    `json:"rel"`   // push: index = current index + rel (mod chunks)
 	Bytes   string `json:"bytes"` // push: right | wrong
-	Snap    int    `json:"snap"`  // readv: catalog index (-1 = everything the peer ever advertised)
+	Snap    int    `json:"snap"`  // readv / reconnect: catalog index (-1 = everything the peer ever advertised, -2 = nothing)
 	DelayMs int    `json:"delay_ms"`
 	Count   int    `json:"count"`
 }
@@ -108,7 +108,7 @@ func has(ss []string, s string) bool {
 	return false
 }
 
-var recipeNames = []string{"plain", "s18", "dup", "blacklist", "infolie", "retrysnap", "vanish", "spfault", "many", "noise", "fooled"}
+var recipeNames = []string{"plain", "s18", "dup", "blacklist", "infolie", "retrysnap", "vanish", "spfault", "many", "noise", "fooled", "comeback"}
 
 // genScenario draws scenario number idx.
 func genScenario(r *rand.Rand, verifSeed, sub int64, stream string, idx int) *Scenario {
@@ -147,7 +147,7 @@ func genScenario(r *rand.Rand, verifSeed, sub int64, stream string, idx int) *Sc
 		second = addTrue(3+uint64(r.Intn(int(s1)-3)), uint32(1+r.Intn(2)), uint32(1+r.Intn(4)))
 	}
 	npeers := 1 + r.Intn(4)
-	if rc("s18") || rc("dup") || rc("vanish") {
+	if rc("s18") || rc("dup") || rc("vanish") || rc("comeback") {
 		if npeers < 2 {
 			npeers = 2
 		}
@@ -297,6 +297,66 @@ func genScenario(r *rand.Rand, verifSeed, sub int64, stream string, idx int) *Sc
 		s.Actions = append(s.Actions, Action{At: []string{"offer", "apply", "apply"}[r.Intn(3)], Call: r.Intn(int(n1)), Kind: "stop", Peer: randPeer()})
 		if r.Intn(2) == 0 {
 			s.Actions = append(s.Actions, Action{At: "apply", Call: r.Intn(int(n1) + 2), Kind: "stop", Peer: randPeer()})
+		}
+		if r.Intn(2) == 0 {
+			// ... and comes back under the same node key
+			last := s.Actions[len(s.Actions)-1]
+			s.Actions = append(s.Actions, Action{At: "apply", Call: last.Call + 1 + r.Intn(2), Kind: "reconnect", Peer: last.Peer, Snap: -1 - r.Intn(2)})
+		}
+	}
+	if rc("comeback") {
+		// a sender the app rejected leaves and comes back under the same ID
+		variant := r.Intn(4)
+		if s.Recipes[0] == "comeback" {
+			variant = (idx / len(recipeNames)) % 4
+		}
+		third := -1
+		if variant == 1 || variant == 3 {
+			third = addTrue(s1, 2, uint32(1+r.Intn(3))) // same height, higher format: the best snapshot once it is pooled
+		}
+		switch variant {
+		case 0, 1: // rejected mid-restore through RejectSenders
+			k := r.Intn(int(n1))
+			s.App.ApplyScript[k] = ApplyOverride{Result: "RETRY", Refetch: []int{0}, RejectSelf: true}
+			s.Actions = append(s.Actions, Action{At: "after-apply", Call: k, Kind: "push", Peer: -3, Rel: 0, Bytes: "right", DelayMs: 20, Count: 1})
+			adv := -1
+			if variant == 1 {
+				adv = third
+			}
+			s.Actions = append(s.Actions, Action{At: "apply", Call: k + 1, Kind: "reconnect", Peer: -2, Snap: adv})
+			if variant == 0 {
+				// the returning peer pushes the chunk that is being refetched
+				s.App.ApplyScript[k+1] = ApplyOverride{Result: "RETRY", Refetch: []int{0}}
+				s.Actions = append(s.Actions,
+					Action{At: "after-apply", Call: k + 1, Kind: "push", Peer: -2, Rel: 0, Bytes: []string{"right", "wrong"}[r.Intn(2)], DelayMs: 10, Count: 1},
+					Action{At: "after-apply", Call: k + 1, Kind: "push", Peer: -2, Rel: 0, Bytes: "right", DelayMs: 70, Count: 1})
+				if r.Intn(2) == 0 {
+					s.App.ApplyScript[k+3] = ApplyOverride{Result: "RETRY", Refetch: []int{0}} // a refetch that may be requested from the returned peer
+				}
+			} else {
+				// the snapshot in progress is rejected afterwards; only the returned peer has the other one
+				s.App.ApplyScript[k+2] = ApplyOverride{Result: "REJECT_SNAPSHOT"}
+			}
+		case 2, 3: // rejected through REJECT_SENDER at the offer
+			if second < 0 {
+				second = addTrue(3+uint64(r.Intn(int(s1)-3)), 1, uint32(1+r.Intn(3)))
+			}
+			if len(s.Peers) > 3 {
+				s.Peers = s.Peers[:3]
+			}
+			for p := range s.Peers {
+				s.Peers[p].Adverts = [][]int{{main}}
+				s.Peers[p].Default = "honest"
+			}
+			s.Peers = append(s.Peers, PeerSpec{Default: "honest", Adverts: [][]int{{second}}})
+			np = len(s.Peers)
+			s.App.OfferScript[0] = "REJECT_SENDER"
+			s.App.OfferScript[1] = "REJECT"
+			adv := -1
+			if variant == 3 {
+				adv = third
+			}
+			s.Actions = append(s.Actions, Action{At: "apphash", Call: 1, Kind: "reconnect", Peer: 0, Snap: adv})
 		}
 	}
 	if rc("spfault") {
